@@ -47,11 +47,25 @@ def context(tier, seed):
                        "flag_sets": 4 if tier == "quick" else 9, "partitions_per_piece": "all 2^(n-1)"}}
 
 
+LONG_PLANS = [["44"] * 8, ["34", "34", "38", "38", "44", "58", "68", "34"]]
+
+
 def units(ctx):
-    return [(i, j) for i in range(len(plan_list(ctx["tier"]))) for j in range(4)]
+    return [(i, j) for i in range(len(plan_list(ctx["tier"]))) for j in range(4)] + [("long", k) for k in range(len(LONG_PLANS))]
 
 
 def gen_cases(unit, ctx):
+    if unit[0] == "long":
+        # scale: eight bars, a note every 12 ticks, all 128 ways of grouping the bars into calls
+        plan = LONG_PLANS[unit[1]]
+        end = sum(blen(SIG[s]) for s in plan)
+        p = ctx["p"]
+        ns = [[o, 6 if (o // 12) % 2 else 12, p + (o // 12) % 2, 0, 10 if (o // 12) % 3 else 30] for o in range(0, end - 12, 12)]
+        side = [[o, 12, p - 12, 0, 33] for o in range(6, end // 2, 48)]
+        for q in (True, False):
+            yield {"plan": plan, "notes": ns, "side": side, "q": q}
+            yield {"plan": plan, "notes": ns[::3], "side": None, "q": q}
+        return
     plan = plan_list(ctx["tier"])[unit[0]]
     p = ctx["p"]
     st = [0]
